@@ -122,7 +122,16 @@ func (m *dsim) drawModules() {
 				p = dir + "/" + p
 			}
 			imp := ""
-			if i > 0 && m.tp.Draw("d.dep", 2) == 1 {
+			if _, vendored := m.mods0Has("google/protobuf/timestamp.proto"); i > 0 && vendored && m.tp.Draw("d.usewkt", 2) == 1 {
+				imp = "import \"google/protobuf/timestamp.proto\";\n"
+				has := false
+				for _, x := range md.deps {
+					has = has || x == 0
+				}
+				if !has {
+					md.deps = append(md.deps, 0)
+				}
+			} else if i > 0 && m.tp.Draw("d.dep", 2) == 1 {
 				d := m.tp.Draw("d.depmod", i)
 				var first string
 				for _, q := range simfs.SortedKeys(m.mods[d].files) {
@@ -146,6 +155,10 @@ func (m *dsim) drawModules() {
 			}
 			md.files[p] = []byte(body)
 		}
+		// a module may vendor a well-known type; modules importing it then depend on this module
+		if i == 0 && n > 1 && m.tp.Draw("d.vendorwkt", 3) == 2 {
+			md.files["google/protobuf/timestamp.proto"] = []byte(fmt.Sprintf("syntax = \"proto3\";\npackage google.protobuf;\n// vendored %d\nmessage Timestamp { int64 seconds = 1; int32 nanos = 2; }\n", m.tp.Draw("d.nonce", 1000)))
+		}
 		for _, extra := range []string{"LICENSE", "buf.md", "README.md", "README.markdown"} {
 			if m.tp.Draw("d.extra", 3) == 1 {
 				md.files[extra] = []byte(fmt.Sprintf("%s of d%d #%d\n", extra, i, m.tp.Draw("d.nonce", 1000)))
@@ -158,6 +171,14 @@ func (m *dsim) drawModules() {
 		}
 		m.mods = append(m.mods, md)
 	}
+}
+
+func (m *dsim) mods0Has(path string) ([]byte, bool) {
+	if len(m.mods) == 0 {
+		return nil, false
+	}
+	c, ok := m.mods[0].files[path]
+	return c, ok
 }
 
 // transitive deps
